@@ -131,12 +131,12 @@ theorem peekLoop_spec (dl : Option Nat) (need : Nat) :
 
 /-! ### the sniffer's read loop -/
 
-theorem sniffLoop_spec (nm : List Nat) (dl : Nat) :
+theorem sniffLoop_spec (nm : List Nat) (off : List (Nat × Nat)) (dl : Nat) :
     ∀ (fuel : Nat) (s : Script) (now : Nat) (buf : Bytes), now ≤ dl →
-      LoopSpec s now buf (sniffLoop nm dl fuel s now buf).1 (sniffLoop nm dl fuel s now buf).2.1
-        (sniffLoop nm dl fuel s now buf).2.2.2 (some dl) ∧
-      ((sniffLoop nm dl fuel s now buf).2.2.1 = true →
-        s.fin = .reset ∧ s.finT ≤ (sniffLoop nm dl fuel s now buf).1) := by
+      LoopSpec s now buf (sniffLoop nm off dl fuel s now buf).1 (sniffLoop nm off dl fuel s now buf).2.1
+        (sniffLoop nm off dl fuel s now buf).2.2.2 (some dl) ∧
+      ((sniffLoop nm off dl fuel s now buf).2.2.1 = true →
+        s.fin = .reset ∧ s.finT ≤ (sniffLoop nm off dl fuel s now buf).1) := by
   intro fuel
   induction fuel with
   | zero =>
@@ -147,13 +147,13 @@ theorem sniffLoop_spec (nm : List Nat) (dl : Nat) :
     unfold sniffLoop
     by_cases h1 : nm.contains buf.length = true
     · simp only [h1, ↓reduceIte]
-      have rs := s.readAt_spec now (some dl) relayBuf
+      have rs := s.readAt_spec now (some dl) (offerAt off buf.length)
       have hub := rs.ub dl rfl hnow
-      cases he : (s.readAt now (some dl) relayBuf).err with
+      cases he : (s.readAt now (some dl) (offerAt off buf.length)).err with
       | none =>
         simp only [he]
-        have := ih (s.readAt now (some dl) relayBuf).rest (s.readAt now (some dl) relayBuf).t
-          (buf ++ (s.readAt now (some dl) relayBuf).data) hub
+        have := ih (s.readAt now (some dl) (offerAt off buf.length)).rest (s.readAt now (some dl) (offerAt off buf.length)).t
+          (buf ++ (s.readAt now (some dl) (offerAt off buf.length)).data) hub
         refine ⟨⟨?_, ?_, ?_, ?_, ?_, fun h => this.1.sorted (rs.sorted h)⟩, ?_⟩
         · rw [this.1.stream, List.append_assoc, rs.stream]
         · rw [this.1.finT, rs.finT]
@@ -188,20 +188,19 @@ structure FrontSpec (cfg : Cfg) (s : Script) (f : Front) (bound : Nat) : Prop wh
   fin : f.rest.fin = s.fin
   lb : cfg.start ≤ f.T
   ub : f.T ≤ cfg.start + bound
-  armed : f.armed = none
   poison : f.st.poisoned = true → s.fin = .reset ∧ s.finT ≤ f.T
   sorted : s.Sorted → f.rest.Sorted
 
-theorem dnsDetect_spec (cfg : Cfg) (s : Script) : FrontSpec cfg s (dnsDetect cfg s) dnsWindow := by
+theorem dnsDetectRaw_spec (cfg : Cfg) (s : Script) : FrontSpec cfg s (dnsDetectRaw cfg s) dnsWindow := by
   have hdl : cfg.start ≤ cfg.start + dnsWindow := Nat.le_add_right _ _
   have p1 := peekLoop_spec (some (cfg.start + dnsWindow)) 2 s.fuel s cfg.start []
   have through : ∀ (t : Nat) (buf : Bytes) (rest : Script),
       buf ++ rest.stream = s.stream → rest.finT = s.finT → rest.fin = s.fin →
       cfg.start ≤ t → t ≤ cfg.start + dnsWindow → (s.Sorted → rest.Sorted) →
-      FrontSpec cfg s ⟨.relay, t, .bufio buf, rest, none⟩ dnsWindow := by
+      FrontSpec cfg s ⟨.relay, t, .bufio buf, rest, some (cfg.start + dnsWindow)⟩ dnsWindow := by
     intro t buf rest h1 h2 h3 h4 h5 h6
-    exact ⟨fun _ => h1, h2, h3, h4, h5, rfl, by simp [Stack.poisoned], h6⟩
-  unfold dnsDetect
+    exact ⟨fun _ => h1, h2, h3, h4, h5, by simp [Stack.poisoned], h6⟩
+  unfold dnsDetectRaw
   simp only
   have p1s : (peekLoop (some (cfg.start + dnsWindow)) 2 s.fuel s cfg.start []).2.2.1 ++
       (peekLoop (some (cfg.start + dnsWindow)) 2 s.fuel s cfg.start []).2.2.2.stream = s.stream := by
@@ -229,26 +228,26 @@ theorem dnsDetect_spec (cfg : Cfg) (s : Script) : FrontSpec cfg s (dnsDetect cfg
         · split
           · exact through _ _ _ p2s p2f p2n p2l p2u p2o
           · split
-            · exact ⟨by simp, p2f, p2n, p2l, p2u, rfl, by simp [Stack.poisoned], p2o⟩
-            · exact ⟨by simp, p2f, p2n, p2l, p2u, rfl, by simp [Stack.poisoned], p2o⟩
+            · exact ⟨by simp, p2f, p2n, p2l, p2u, by simp [Stack.poisoned], p2o⟩
+            · exact ⟨by simp, p2f, p2n, p2l, p2u, by simp [Stack.poisoned], p2o⟩
       | full => simp only [h2]; exact through _ _ _ p2s p2f p2n p2l p2u p2o
       | fail e => simp only [h2]; exact through _ _ _ p2s p2f p2n p2l p2u p2o
   | full => simp only [h1]; exact through _ _ _ p1s p1.finT p1.fin p1.lb p1u p1.sorted
   | fail e => simp only [h1]; exact through _ _ _ p1s p1.finT p1.fin p1.lb p1u p1.sorted
 
-theorem sniffFront_spec (cfg : Cfg) (s : Script) :
-    FrontSpec cfg s (sniffFront cfg s) (2 * cfg.window) := by
+theorem sniffFrontRaw_spec (cfg : Cfg) (s : Script) :
+    FrontSpec cfg s (sniffFrontRaw cfg s) (2 * cfg.window) := by
   have r0 := s.readAt_spec cfg.start (some (cfg.start + cfg.window)) prefetchBytes
   have r0u := r0.ub _ rfl (Nat.le_add_right _ _)
   have r0u2 : (s.readAt cfg.start (some (cfg.start + cfg.window)) prefetchBytes).t ≤
       cfg.start + 2 * cfg.window := by omega
-  unfold sniffFront
+  unfold sniffFrontRaw
   simp only
   generalize hr : s.readAt cfg.start (some (cfg.start + cfg.window)) prefetchBytes = r at *
   have plainCase : r.err ≠ .none ∨ r.data = [] →
-      FrontSpec cfg s ⟨.relay, r.t, .plain, r.rest, none⟩ (2 * cfg.window) := by
+      FrontSpec cfg s ⟨.relay, r.t, .plain, r.rest, some (cfg.start + cfg.window)⟩ (2 * cfg.window) := by
     intro h
-    refine ⟨fun _ => ?_, r0.finT, r0.fin, r0.lb, r0u2, rfl, by simp [Stack.poisoned], r0.sorted⟩
+    refine ⟨fun _ => ?_, r0.finT, r0.fin, r0.lb, r0u2, by simp [Stack.poisoned], r0.sorted⟩
     have hs := r0.stream
     rcases h with h | h
     · have := r0.errRest h; rw [this.2] at hs; simpa [Stack.content] using hs
@@ -256,7 +255,7 @@ theorem sniffFront_spec (cfg : Cfg) (s : Script) :
   cases he : r.err with
   | reset =>
     simp only [he]
-    exact ⟨by simp, r0.finT, r0.fin, r0.lb, r0u2, rfl, by simp [Stack.poisoned], r0.sorted⟩
+    exact ⟨by simp, r0.finT, r0.fin, r0.lb, r0u2, by simp [Stack.poisoned], r0.sorted⟩
   | eof => simp only [he]; exact plainCase (Or.inl (by simp [he]))
   | timeout => simp only [he]; exact plainCase (Or.inl (by simp [he]))
   | none =>
@@ -264,26 +263,26 @@ theorem sniffFront_spec (cfg : Cfg) (s : Script) :
     split
     · rename_i hemp; exact plainCase (Or.inr (by simpa using hemp))
     · split
-      · exact ⟨fun _ => by simpa [Stack.content] using r0.stream, r0.finT, r0.fin, r0.lb, r0u2, rfl,
+      · exact ⟨fun _ => by simpa [Stack.content] using r0.stream, r0.finT, r0.fin, r0.lb, r0u2,
           by simp [Stack.poisoned], r0.sorted⟩
       · -- the sniffer
         have hdl : r.t ≤ r.t + cfg.window := Nat.le_add_right _ _
-        have r1 := r.rest.readAt_spec r.t (some (r.t + cfg.window)) relayBuf
+        have r1 := r.rest.readAt_spec r.t (some (r.t + cfg.window)) (offerAt cfg.offer r.data.length)
         have r1u := r1.ub _ rfl hdl
-        generalize hr1 : r.rest.readAt r.t (some (r.t + cfg.window)) relayBuf = q at *
+        generalize hr1 : r.rest.readAt r.t (some (r.t + cfg.window)) (offerAt cfg.offer r.data.length) = q at *
         have hstream1 : (r.data ++ q.data) ++ q.rest.stream = s.stream := by
           rw [List.append_assoc, r1.stream, r0.stream]
         have hub1 : q.t ≤ cfg.start + 2 * cfg.window := by omega
         have hlb1 : cfg.start ≤ q.t := Nat.le_trans r0.lb r1.lb
         have loopCase : FrontSpec cfg s
-            ⟨.relay, (sniffLoop cfg.needMore (r.t + cfg.window) q.rest.fuel q.rest q.t (r.data ++ q.data)).1,
-              .sniffer (sniffLoop cfg.needMore (r.t + cfg.window) q.rest.fuel q.rest q.t (r.data ++ q.data)).2.1
-                (sniffLoop cfg.needMore (r.t + cfg.window) q.rest.fuel q.rest q.t (r.data ++ q.data)).2.2.1,
-              (sniffLoop cfg.needMore (r.t + cfg.window) q.rest.fuel q.rest q.t (r.data ++ q.data)).2.2.2, none⟩
+            ⟨.relay, (sniffLoop cfg.needMore cfg.offer (r.t + cfg.window) q.rest.fuel q.rest q.t (r.data ++ q.data)).1,
+              .sniffer (sniffLoop cfg.needMore cfg.offer (r.t + cfg.window) q.rest.fuel q.rest q.t (r.data ++ q.data)).2.1
+                (sniffLoop cfg.needMore cfg.offer (r.t + cfg.window) q.rest.fuel q.rest q.t (r.data ++ q.data)).2.2.1,
+              (sniffLoop cfg.needMore cfg.offer (r.t + cfg.window) q.rest.fuel q.rest q.t (r.data ++ q.data)).2.2.2, some (r.t + cfg.window)⟩
             (2 * cfg.window) := by
-          have l := sniffLoop_spec cfg.needMore (r.t + cfg.window) q.rest.fuel q.rest q.t (r.data ++ q.data) r1u
+          have l := sniffLoop_spec cfg.needMore cfg.offer (r.t + cfg.window) q.rest.fuel q.rest q.t (r.data ++ q.data) r1u
           have lu := l.1.ub _ rfl r1u
-          refine ⟨fun _ => ?_, ?_, ?_, ?_, ?_, rfl, ?_, fun h => l.1.sorted (r1.sorted (r0.sorted h))⟩
+          refine ⟨fun _ => ?_, ?_, ?_, ?_, ?_, ?_, fun h => l.1.sorted (r1.sorted (r0.sorted h))⟩
           · simp only [Stack.content]; rw [l.1.stream, hstream1]
           · rw [l.1.finT, r1.finT, r0.finT]
           · rw [l.1.fin, r1.fin, r0.fin]
@@ -299,26 +298,37 @@ theorem sniffFront_spec (cfg : Cfg) (s : Script) :
         | timeout =>
           simp only [he1]
           exact ⟨fun _ => by simpa [Stack.content] using hstream1, by rw [r1.finT, r0.finT],
-            by rw [r1.fin, r0.fin], hlb1, hub1, rfl, by simp [Stack.poisoned],
+            by rw [r1.fin, r0.fin], hlb1, hub1, by simp [Stack.poisoned],
             fun h => r1.sorted (r0.sorted h)⟩
         | reset =>
           simp only [he1]
           have hrs := r1.reset he1
           rw [r0.fin, r0.finT] at hrs
           exact ⟨fun _ => by simpa [Stack.content] using hstream1, by rw [r1.finT, r0.finT],
-            by rw [r1.fin, r0.fin], hlb1, hub1, rfl, fun _ => hrs, fun h => r1.sorted (r0.sorted h)⟩
+            by rw [r1.fin, r0.fin], hlb1, hub1, fun _ => hrs, fun h => r1.sorted (r0.sorted h)⟩
 
 /-- the detection window that applies to a destination -/
 def frontBound (cfg : Cfg) : Nat :=
   if cfg.port53 then dnsWindow else if cfg.sniff then 2 * cfg.window else 0
 
+theorem FrontSpec.cleared {cfg : Cfg} {s : Script} {f : Front} {b : Nat} (h : FrontSpec cfg s f b) :
+    FrontSpec cfg s f.cleared b :=
+  ⟨h.stream, h.finT, h.fin, h.lb, h.ub, h.poison, h.sorted⟩
+
+/-- every probe of the front-end has cleared the read deadline it armed when `handleConn` dials -/
+theorem front_armed (cfg : Cfg) (s : Script) : (front cfg s).armed = none := by
+  unfold front
+  split
+  · rfl
+  · split <;> rfl
+
 theorem front_spec (cfg : Cfg) (s : Script) : FrontSpec cfg s (front cfg s) (frontBound cfg) := by
   unfold front frontBound
   split
-  · exact dnsDetect_spec cfg s
+  · exact (dnsDetectRaw_spec cfg s).cleared
   · split
-    · exact sniffFront_spec cfg s
-    · exact ⟨fun _ => by simp [Stack.content], rfl, rfl, Nat.le_refl _, Nat.le_refl _, rfl,
+    · exact (sniffFrontRaw_spec cfg s).cleared
+    · exact ⟨fun _ => by simp [Stack.content], rfl, rfl, Nat.le_refl _, Nat.le_refl _,
         by simp [Stack.poisoned], fun h => h⟩
 
 /-! ### the fuel given to the detection loops is enough -/
@@ -379,9 +389,15 @@ theorem peekLoop_fuel_stable (dl : Option Nat) (need : Nat) :
         | reset => simp only [he]
         | timeout => simp only [he]
 
-theorem sniffLoop_fuel_stable (nm : List Nat) (dl : Nat) :
+theorem offerAt_pos (off : List (Nat × Nat)) (hoff : ∀ p ∈ off, 0 < p.2) (l : Nat) : 0 < offerAt off l := by
+  unfold offerAt
+  cases h : off.find? (fun p => p.1 == l) with
+  | none => simp; decide
+  | some p => simp; exact hoff p (List.mem_of_find?_eq_some h)
+
+theorem sniffLoop_fuel_stable (nm : List Nat) (off : List (Nat × Nat)) (hoff : ∀ p ∈ off, 0 < p.2) (dl : Nat) :
     ∀ (fuel : Nat) (s : Script) (now : Nat) (buf : Bytes), s.fuel ≤ fuel + 1 →
-      sniffLoop nm dl (fuel + 1) s now buf = sniffLoop nm dl fuel s now buf := by
+      sniffLoop nm off dl (fuel + 1) s now buf = sniffLoop nm off dl fuel s now buf := by
   intro fuel
   induction fuel with
   | zero => intro s now buf h; simp [Script.fuel] at h
@@ -389,10 +405,10 @@ theorem sniffLoop_fuel_stable (nm : List Nat) (dl : Nat) :
     intro s now buf h
     rw [sniffLoop, sniffLoop]
     split
-    · cases he : (s.readAt now (some dl) relayBuf).err with
+    · cases he : (s.readAt now (some dl) (offerAt off buf.length)).err with
       | none =>
         simp only [he]
-        have := s.readAt_fuel now (some dl) relayBuf (by decide) he
+        have := s.readAt_fuel now (some dl) (offerAt off buf.length) (offerAt_pos off hoff _) he
         exact ih _ _ _ (by omega)
       | eof => simp only [he]
       | reset => simp only [he]
@@ -496,7 +512,7 @@ theorem cutBefore_keeps (t : Nat) (ds : List Deliv) (d : Deliv) (hd : d ∈ ds) 
 /-! ### closed forms of the relay phase (for an arbitrary front-end result `f`) -/
 
 /-- client side ends first (or at the same time), without a latched error -/
-theorem relayPhase_client_first (cfg : Cfg) (f : Front) (u : Script) (hp : f.st.poisoned = false)
+theorem relayPhase_client_first (cfg : Cfg) (f : Front) (u : Script) (hp : f.st.poisoned = false) (ha : f.armed = none)
     (hle : max f.T f.rest.finT ≤ max f.T u.finT) :
     relayPhase cfg f u =
       if f.rest.fin = .eof then
@@ -513,7 +529,7 @@ theorem relayPhase_client_first (cfg : Cfg) (f : Front) (u : Script) (hp : f.st.
         ⟨some f.T, f.armed.isSome, natDelivs f.T f.st.content f.rest, max f.T f.rest.finT,
           cutBefore (max f.T f.rest.finT) (natDelivs f.T [] u), max f.T f.rest.finT, max f.T f.rest.finT⟩ := by
   unfold relayPhase
-  simp only [hp, dirNatural_clean, hle, ↓reduceIte]
+  simp only [hp, ha, dirNaturalArmed, dirNatural_clean, hle, ↓reduceIte]
   cases hf : f.rest.fin with
   | eof =>
     simp only [resolve, beq_self_eq_true, Bool.not_true, Bool.false_eq_true, ↓reduceIte]
@@ -525,7 +541,7 @@ theorem relayPhase_client_first (cfg : Cfg) (f : Front) (u : Script) (hp : f.st.
     simp [resolve, this]
 
 /-- upstream side ends first -/
-theorem relayPhase_upstream_first (cfg : Cfg) (f : Front) (u : Script) (hp : f.st.poisoned = false)
+theorem relayPhase_upstream_first (cfg : Cfg) (f : Front) (u : Script) (hp : f.st.poisoned = false) (ha : f.armed = none)
     (hlt : max f.T u.finT < max f.T f.rest.finT) :
     relayPhase cfg f u =
       if u.fin = .eof then
@@ -543,7 +559,7 @@ theorem relayPhase_upstream_first (cfg : Cfg) (f : Front) (u : Script) (hp : f.s
           max f.T u.finT, natDelivs f.T [] u, max f.T u.finT, max f.T u.finT⟩ := by
   unfold relayPhase
   have hnle : ¬ max f.T f.rest.finT ≤ max f.T u.finT := by omega
-  simp only [hp, dirNatural_clean, hnle, ↓reduceIte]
+  simp only [hp, ha, dirNaturalArmed, dirNatural_clean, hnle, ↓reduceIte]
   cases hf : u.fin with
   | eof =>
     simp only [resolve, beq_self_eq_true, Bool.not_true, Bool.false_eq_true, ↓reduceIte]
@@ -555,13 +571,14 @@ theorem relayPhase_upstream_first (cfg : Cfg) (f : Front) (u : Script) (hp : f.s
     simp [resolve, this]
 
 /-- a latched stream error: the relay collapses at once, after forwarding what was buffered -/
-theorem relayPhase_poisoned (cfg : Cfg) (f : Front) (u : Script) (hp : f.st.poisoned = true) :
+theorem relayPhase_poisoned (cfg : Cfg) (f : Front) (u : Script) (hp : f.st.poisoned = true)
+    (ha : f.armed = none) :
     relayPhase cfg f u =
       ⟨some f.T, f.armed.isSome, if f.st.content.isEmpty then [] else [⟨f.T, f.st.content⟩], f.T,
         cutBefore f.T (natDelivs f.T [] u), f.T, f.T⟩ := by
   unfold relayPhase
   have hle : f.T ≤ max f.T u.finT := by omega
-  simp [hp, dirNatural_poisoned, dirNatural_clean, hle, resolve]
+  simp [hp, ha, dirNaturalArmed, dirNatural_poisoned, dirNatural_clean, hle, resolve]
 
 /-! ### small bridges used by the property theorems -/
 
